@@ -1,4 +1,5 @@
 //! E3a — direct drivers of conjure-http's runtime (no generated code): C11, C07, C06, C18.
+mod c07;
 mod c11;
 
 use vcommon::{Args, Report};
@@ -7,6 +8,7 @@ fn main() {
     let args = Args::parse();
     vcommon::quiet_panics();
     let report: Report = match args.property.as_str() {
+        "C07" => c07::run(&args),
         "C11" => c11::run(&args),
         other => panic!("httpdirect: unknown property {}", other),
     };
